@@ -8,6 +8,7 @@
  *   fill <anon-idx> <byte>                                 every byte of that mapping set to the value
  *   threadd <kind> <sp_off> <pages> <above> <name-hex|->   deep stack: <above> whole pages above the page of the stack pointer
  *   mainname <name-hex|00>                                 name of the main thread
+ *   auxv <mode>                                            replace the process's auxiliary vector (after a chain line; see the code)
  *   poke <thread-idx> <off> <anon-idx> <aoff>              store &anon[aoff] at thread's sp+off (after both lines)
  *   anonat <hexaddr> <pages> <perms>                       anonymous mapping at a fixed address
  *   filexat <hexaddr> <hexpath> <offset> <pages> <perms>   file mapping at a fixed address
@@ -38,6 +39,7 @@
 #include <sys/prctl.h>
 #include <sys/socket.h>
 #include <sys/syscall.h>
+#include <sys/auxv.h>
 #include <sys/wait.h>
 #include <unistd.h>
 
@@ -47,7 +49,7 @@ struct tcfg { enum kind kind; unsigned sp_off; unsigned pages; char name[16]; in
               uint64_t sp; volatile int go_exit; pthread_t th; pid_t tid; };
 static struct tcfg T[MAXT]; static int NT;
 static volatile uint64_t *SH;           /* shared page */
-static volatile int ready; static int main_exits;
+static volatile int ready; static int main_exits; static unsigned long chain_at;
 extern char blk_after_syscall[], spin_loop[];
 
 static void on_rt(int sig, siginfo_t *si, void *uc) {
@@ -214,6 +216,23 @@ int main(int argc, char **argv) {
         if (u2 == 4) slot[6] = (char)0xff;   /* kind 4: a name that is not valid UTF-8 */
         lm[i].l_ld = (void *)(uintptr_t)(0x2000 + i); lm[i].l_next = i + 1 < u1 ? &lm[i + 1] : (u2 == 1 ? &lm[0] : 0); }
       fl += snprintf(facts + fl, sizeof facts - fl, " chain=%lx", (unsigned long)m);
+      chain_at = (unsigned long)m;
+    } else if (sscanf(line, "auxv %u", &u1) == 1) {
+      /* replace this process's auxiliary vector (what /proc/<pid>/auxv reports):
+         1: AT_PHDR / AT_PHNUM leading to the synthetic chain FIRST, the real values after them (duplicates)
+         2: the real values first, the synthetic ones after them
+         3: AT_PHDR = 0 first, then the synthetic one; no AT_SYSINFO_EHDR at all
+         4: no AT_PHDR / AT_PHNUM at all */
+      unsigned long rp = getauxval(AT_PHDR), rn = getauxval(AT_PHNUM), re = getauxval(AT_ENTRY), rg = getauxval(AT_SYSINFO_EHDR);
+      unsigned long v[32]; int k = 0;
+      #define PUT(a, b) do { v[k++] = (a); v[k++] = (b); } while (0)
+      if (u1 == 1) { PUT(AT_PHDR, chain_at); PUT(AT_PHNUM, 2); PUT(AT_PAGESZ, 4096); PUT(AT_PHDR, rp); PUT(AT_PHNUM, rn); PUT(AT_ENTRY, re); PUT(AT_SYSINFO_EHDR, rg); }
+      else if (u1 == 2) { PUT(AT_SYSINFO_EHDR, rg); PUT(AT_PHDR, rp); PUT(AT_PHNUM, rn); PUT(AT_ENTRY, re); PUT(AT_PHDR, chain_at); PUT(AT_PHNUM, 2); }
+      else if (u1 == 3) { PUT(AT_PHDR, 0); PUT(AT_PHDR, chain_at); PUT(AT_PHNUM, 2); PUT(AT_ENTRY, re); }
+      else { PUT(AT_ENTRY, re); PUT(AT_SYSINFO_EHDR, rg); PUT(AT_PAGESZ, 4096); }
+      PUT(AT_NULL, 0);
+      if (prctl(PR_SET_MM, PR_SET_MM_AUXV, (unsigned long)v, (unsigned long)k * sizeof v[0], 0)) fl += snprintf(facts + fl, sizeof facts - fl, " auxvset=failed");
+      else fl += snprintf(facts + fl, sizeof facts - fl, " auxvset=%u", u1);
     }
   }
   fclose(f);
